@@ -50,11 +50,26 @@ type wsBackend struct {
 	hdrs  map[string]http.Header
 	wmu   map[string]*sync.Mutex
 	gone  map[string]bool // the backend closed this connection itself
+	rcnt  map[string]int  // label -> non-empty messages received
+	seenC map[string]bool // label -> the backend observed the close
+}
+
+func (b *wsBackend) received(label string) int {
+	b.mu.Lock()
+	defer b.mu.Unlock()
+	return b.rcnt[label]
+}
+
+func (b *wsBackend) sawClose(label string) bool {
+	b.mu.Lock()
+	defer b.mu.Unlock()
+	return b.seenC[label]
 }
 
 func newWsBackend() *wsBackend {
 	b := &wsBackend{conns: map[string]*websocket.Conn{}, sidOf: map[string]string{}, sentC: map[string]map[int]wsMsg{},
-		paths: map[string][2]string{}, hdrs: map[string]http.Header{}, wmu: map[string]*sync.Mutex{}, gone: map[string]bool{}}
+		paths: map[string][2]string{}, hdrs: map[string]http.Header{}, wmu: map[string]*sync.Mutex{}, gone: map[string]bool{},
+		rcnt: map[string]int{}, seenC: map[string]bool{}}
 	up := websocket.Upgrader{CheckOrigin: func(*http.Request) bool { return true }}
 	b.srv = httptest.NewServer(http.HandlerFunc(func(w http.ResponseWriter, r *http.Request) {
 		label := r.URL.Query().Get("s")
@@ -98,7 +113,14 @@ func (b *wsBackend) readLoop(label string, c *websocket.Conn) {
 		typ, data, err := c.ReadMessage()
 		if err != nil {
 			hx.Emit("BackendSawClose", "sid", b.sid(label))
+			b.mu.Lock()
+			b.seenC[label] = true
+			b.mu.Unlock()
 			return
+		}
+		if len(data) == 0 {
+			hx.Emit("BackendRecvEmpty", "sid", b.sid(label), "typ", typ)
+			continue
 		}
 		// payload = "<n>:" + body
 		n := 0
@@ -113,6 +135,7 @@ func (b *wsBackend) readLoop(label string, c *websocket.Conn) {
 		}
 		b.mu.Lock()
 		want, ok := b.sentC[label][n]
+		b.rcnt[label]++
 		b.mu.Unlock()
 		same := ok && want.typ == typ && bytes.Equal(want.payload, data)
 		if ok && !same && want.typ == typ && len(want.payload) > 0 && want.payload[0] == '{' {
@@ -653,7 +676,7 @@ func wsCallsDriver(a *Args) {
 		res.Case(strings.Join(seq, ","), map[string]interface{}{"sequence": seq})
 	}
 	// gated concurrent pairs in a child process (a panic in a connection goroutine kills the process)
-	for _, pair := range []string{"data-vs-close", "close-vs-close", "stress"} {
+	for _, pair := range []string{"shapes", "data-vs-close", "close-vs-close", "stress"} {
 		rounds := 1
 		if pair == "stress" && hx.Thorough() {
 			rounds = 5
@@ -666,6 +689,10 @@ func wsCallsDriver(a *Args) {
 			}
 			cmd := exec.Command(bin, "-mode", "race-child", "-out", os.DevNull, "wscalls")
 			cmd.Env = append(os.Environ(), "GORACE=halt_on_error=1", "VERIF_PAIR="+pair, "VERIF_TRACE=")
+			if pair == "shapes" {
+				// this child records its own segments into the shared trace (the parent waits meanwhile)
+				cmd.Env = append(os.Environ(), "GORACE=halt_on_error=1", "VERIF_PAIR="+pair)
+			}
 			out, err := cmd.CombinedOutput()
 			kind, inRepo, ex := hx.RaceReport(string(out))
 			panicked := err != nil
@@ -713,6 +740,9 @@ func wsRaceChild() {
 		}
 	}
 	switch pair {
+	case "shapes":
+		wsShapes(be)
+		return
 	case "data-vs-close":
 		sid, _ := shim.open(be, "r1", "1")
 		g := arm("ws.send.checked")
@@ -947,4 +977,76 @@ func concreteURL(class, label string, rng *rand.Rand) string {
 		return "ws://evil.example/ws/a%2Fb%20c/" + t + q
 	}
 	return "/ws/" + t
+}
+
+// wsShapes: every JSON shape of a data call's "msg" on a live session, between numbered valid
+// messages, for both protocol versions and with header injection on and off. Runs in a child
+// process (a panic in a connection goroutine kills the process) and records its own segments.
+func wsShapes(be *wsBackend) {
+	for _, version := range []string{"1", "0"} {
+		for _, inject := range []bool{false, true} {
+			shim, cancel := newShim(be.host(), inject)
+			for _, sh := range MsgShapes {
+				if sh.Valid && sh.Name != "empty-string" && sh.Name != "blob-empty" {
+					continue // the numbered messages below are the valid shapes
+				}
+				if version == "0" && sh.Name == "blob-bad-base64" {
+					continue // protocol version 0 carries the string itself: any string is a valid blob
+				}
+				label := fmt.Sprintf("shape-%s-v%s-%v", sh.Name, version, inject)
+				hx.Reset("ws"+label, "wsshape:"+sh.Name)
+				sid, st := shim.open(be, label, version)
+				if st != 200 {
+					hx.Emit("Final", "panicked", true, "report", "open failed")
+					continue
+				}
+				n := 0
+				valid := func(binary bool) {
+					n++
+					payload := []byte(fmt.Sprintf("%d:hello", n))
+					m := wsMsg{websocket.TextMessage, payload}
+					body := fmt.Sprintf(`[{"id":%q,"msg":%q}]`, sid, payload)
+					if binary {
+						m.typ = websocket.BinaryMessage
+						enc := string(payload) // protocol version 0 carries the bytes as they are
+						if version != "0" {
+							enc = base64.StdEncoding.EncodeToString(payload)
+						}
+						body = fmt.Sprintf(`[{"id":%q,"msg":[%q]}]`, sid, enc)
+					}
+					be.mu.Lock()
+					be.sentC[label][n] = m
+					be.mu.Unlock()
+					hx.Emit("DataBegin", "sid", sid, "from", n, "to", n)
+					code, _ := shim.call("data", body, version)
+					hx.Emit("Call", "kind", "data", "arg", "valid", "sid", sid, "status", code)
+				}
+				valid(false)
+				valid(true)
+				code, _ := shim.call("data", shapedData(sid, sh.JSON), version)
+				hx.Emit("Call", "kind", "data", "arg", "shaped", "sid", sid, "status", code, "shape", sh.Name)
+				valid(false)
+				valid(true)
+				// give the writer goroutine time to hand everything to the backend
+				deadline := time.Now().Add(3 * time.Second)
+				for time.Now().Before(deadline) {
+					time.Sleep(5 * time.Millisecond)
+					if be.received(label) >= n {
+						break
+					}
+				}
+				hx.Emit("CloseBegin", "sid", sid)
+				code, _ = shim.call("close", fmt.Sprintf(`{"id":%q}`, sid), version)
+				hx.Emit("Call", "kind", "close", "arg", "valid", "sid", sid, "status", code)
+				for i := 0; i < 200 && !be.sawClose(label); i++ {
+					time.Sleep(5 * time.Millisecond)
+				}
+				shim.mu.Lock()
+				p := shim.panicked
+				shim.mu.Unlock()
+				hx.Emit("Final", "panicked", p)
+			}
+			cancel()
+		}
+	}
 }
